@@ -414,6 +414,12 @@ async def one_message(ctx, e, d: bytes, fam: str, rng, coq_cases, coq_inputs,
                                   lambda p: M.lit(items.get(key(p))) or b'',
                                   lambda p: M.lit(items.get(key(p, b'.MIME'))) or b'',
                                   'imap')
+        if eff is not None:
+            await M.check_separately(ctx, e, b'*', items, st, eff, rep, where,
+                                     bool(binary) and M.spec_identity_cte(
+                                         M.lit(items.get(b'BODY[HEADER]')) or b'') is True)
+            if e.conn.closed:
+                return None
         return {'items': items, 'bs': bs, 'eff': eff, 'parts': parts}
 
     orig = await examine('append')
